@@ -43,8 +43,14 @@ def run(rep, tier, props):
                         for vec in ((True, False) if tier == 'thorough' else (True,)):
                             n += 1
                             jobs.append(dict(what='atom', item=it, ai=ai, fe=fe, k=k, c=c, vec=vec, sk=n))
+            # the deterministic model classes themselves (lp.Model, socp.Model, gcp.Model: each layer's own st()/objective
+            # code, constraints posted as lists and tuples); a layer that cannot encode an atom must refuse it loudly
+            for fe in ('gcp', 'socp', 'lp'):
+                for k in ks[:2]:
+                    n += 1
+                    jobs.append(dict(what='atom', item=it, ai=ai, fe=fe, k=k, c=cs[-1], vec=True, sk=n))
     for kind in ('KL', 'ExpCone', 'RSOCone', 'maxof', 'minof', 'maxof_obj', 'minof_obj'):
-        for fe in ('ro', 'dro'):
+        for fe in ('ro', 'dro', 'gcp'):
             for sk in range(2 if tier == 'quick' else 4):
                 jobs.append(dict(what='other', kind=kind, fe=fe, sk=sk))
     results = core.pmap('harness.replay_dispatch', 'replay', jobs, chunksize=4)
